@@ -1,7 +1,8 @@
 (* C09 — issued mdocs are internally consistent and verifiable.  Pinned statements only.
    All statements are about Model/Issuance.v (issue / prepare / complete with an explicit random
-   tape and a `release` flag for the i32 overflow behaviour) and hold for every tape, i.e. for
-   every outcome of the random draws.  "Fresh" randomness is not a property of the model (the
+   tape; the `release` flag stands for "overflow checks off" and, since DigestId::new saturates
+   (repair of F3, /repo 0f19958), no longer influences anything: C09_build_mode_irrelevant) and
+   hold for every tape, i.e. for every outcome of the random draws.  "Fresh" randomness is not a property of the model (the
    tape is arbitrary): only the length and the use of the random bytes are proved. *)
 From Isomdl Require Import Lib.Bytes Lib.Utf8 Lib.Cbor Lib.Sha2 Model.Cose Spec.CoseRfc Proofs.CoseProofs
      Gen.Issuance Model.Issuance Spec.IssuanceSpec Model.IssuanceObs Proofs.IssuanceProofs Proofs.IssuanceSpecProofs.
@@ -9,20 +10,19 @@ Open Scope N_scope.
 
 (* ---------- DigestId::new over all 2^32 inputs ---------- *)
 
-(* for every i32 except the recorded class F3 (i = i32::MIN), in debug and release builds alike,
-   the constructor returns |i|, which lies in 0 .. 2^31-1 *)
+(* for EVERY i32 (all 2^32 inputs), in debug and release builds alike, the constructor returns
+   min(|i|, 2^31-1), which lies in 0 .. 2^31-1 *)
 Theorem C09_digest_id_range : forall (release : bool) (i : Z),
-  in_i32 i = true -> ~ Known_C09_F3 i ->
-  digest_id_new release i = IdValue (Z.abs i) /\ digest_id_in_range (Z.abs i).
+  in_i32 i = true ->
+  digest_id_new release i = Z.min (Z.abs i) 2147483647 /\ digest_id_in_range (digest_id_new release i).
 Proof. exact c09_digest_id_range. Qed.
 
-(* the unrestricted statement (all i in [-2^31, 2^31)) is REFUTED by the faithful model at
-   i = -2^31: a debug build panics, a release build returns -2^31 (finding F3) *)
-Theorem C09_digest_id_range_refuted :
-  exists i, in_i32 i = true /\ Known_C09_F3 i /\
-            digest_id_new false i = IdPanic /\
-            exists v, digest_id_new true i = IdValue v /\ ~ digest_id_in_range v.
-Proof. exact c09_digest_id_range_refuted. Qed.
+(* the former witness of F3: i32::MIN now gives 2^31-1 in both build modes; so do +-(2^31-1) *)
+Example C09_ex_digest_id_min :
+  digest_id_new false (-2147483648) = 2147483647%Z /\ digest_id_new true (-2147483648) = 2147483647%Z /\
+  digest_id_new false (-2147483647) = 2147483647%Z /\ digest_id_new false 2147483647 = 2147483647%Z /\
+  digest_id_new false 0 = 0%Z /\ digest_id_new false (-1) = 1%Z.
+Proof. repeat split. Qed.
 
 (* every u32 word of the generator is some i32, and every i32 is reached: the model's domain of
    `rng.gen::<i32>()` is exactly the 2^32 inputs *)
@@ -60,23 +60,40 @@ Theorem C09_ids_unique : forall release q t x5 sign m,
       (forall k, In k (map fst vd) <-> In k (map it_id its) \/ In k (map fst decoys)).
 Proof. exact c09_ids_unique. Qed.
 
-(* every digest id of the document (items and decoys) lies in 0 .. 2^31-1, except the recorded
-   class F3: in a release build a draw of i32::MIN yields the id -2^31 (a debug build panics) *)
+(* every digest id of the document (items and decoys) lies in 0 .. 2^31-1, whatever was drawn *)
 Theorem C09_ids_in_range : forall release q t x5 sign m,
   issue release q t x5 sign = Ok m ->
   forall ns its vd, ns_of m ns its vd ->
     (forall it, In it its -> In (it_id it) (map fst vd)) /\
-    forall k, In k (map fst vd) -> release = false \/ ~ Known_C09_F3 k -> digest_id_in_range k.
+    forall k, In k (map fst vd) -> digest_id_in_range k.
 Proof. exact c09_ids_in_range. Qed.
 
-(* the F3 class reaches issued documents: with a release build and the draw 0x80000000 a document
-   is issued whose digestID is -2^31; the same draw makes a debug build panic *)
-Theorem C09_ids_in_range_refuted :
-  exists q t x5 sign,
-    issue false q t x5 sign = Panic /\
-    exists m ns its vd, issue true q t x5 sign = Ok m /\ ns_of m ns its vd /\
-                        In (-2147483648)%Z (map it_id its) /\ In (-2147483648)%Z (map fst vd).
-Proof. exact c09_ids_in_range_refuted. Qed.
+(* issuance never panics, and does not depend on the build mode *)
+Theorem C09_never_panics : forall release q t x5 sign,
+  prepare release q t <> Panic /\ issue release q t x5 sign <> Panic.
+Proof. exact c09_never_panics. Qed.
+
+Theorem C09_build_mode_irrelevant : forall q t x5 sign,
+  (forall i, digest_id_new true i = digest_id_new false i) /\
+  prepare true q t = prepare false q t /\ issue true q t x5 sign = issue false q t x5 sign.
+Proof. exact c09_build_mode_irrelevant. Qed.
+
+(* the former witness of F3 at document level: the draw 0x80000000 (i32::MIN) now yields the id
+   2^31-1 in both build modes; the draws 0x7fffffff and 0x80000001 (+-(2^31-1)) give the same id
+   and are therefore rejected as duplicates by generate_digest_id (it deduplicates on the RESULT),
+   so the second element gets the next fresh draw *)
+Example C09_ex_min_draw :
+  let q := {| q_doc_type := [100]; q_namespaces := [([110], [([101], CUInt 1); ([102], CUInt 2)])]; q_validity := CNull;
+              q_alg := SHA256; q_device_key_info := CNull; q_auth := None; q_sig_alg := (-7)%Z; q_decoys := false |} in
+  let t := {| t_ids := [2147483648; 2147483647; 2147483649; 5]; t_salt := repeat 0 32; t_counts := []; t_decoy := DecoyBytes [] |} in
+  forall release,
+  match issue release q t (CBytes [48]) (fun _ => Some [1]) with
+  | Ok m => map (fun x => map it_id (snd x)) (m_namespaces m) = [[2147483647; 5]%Z] /\
+            map (fun x => map fst (snd x)) (mso_value_digests (m_mso m)) = [[5; 2147483647]%Z] /\
+            issued_check (fun _ _ => true) (request_of q (CBytes [48])) (observe m) = None
+  | _ => False
+  end.
+Proof. intros q t [|]; vm_compute; repeat split. Qed.
 
 (* valueDigests[ns][digestID] is the declared hash of the element's IssuerSignedItemBytes,
    #6.24(bstr .cbor IssuerSignedItem), for all three algorithms; and it is the only entry with that id *)
@@ -150,11 +167,11 @@ Theorem C09_refusals : forall release q t,
 Proof. exact c09_refusals. Qed.
 
 (* the model's documents satisfy the ISO-level statement of Spec/IssuanceSpec.v (which is written
-   over the encoded document), for well-formed inputs, outside the F3 class *)
+   over the encoded document), for well-formed inputs *)
 Theorem C09_meets_iso_spec : forall verify_sig release q t x5 sign m,
   request_wf q -> wf_bytes (t_salt t) = true -> stream_wf (t_decoy t) ->
   issue release q t x5 sign = Ok m ->
-  sizes_ok m -> release = false \/ no_min_id m ->
+  sizes_ok m ->
   (forall tbs sg, sign tbs = Some sg -> verify_sig tbs sg = true) ->
   issued_ok verify_sig (request_of q x5) (observe m).
 Proof. exact issue_meets_spec. Qed.
@@ -177,7 +194,7 @@ Example C09_src_constants :
 Proof. repeat split. Qed.
 
 Example C09_src_digest_id_new :
-  gen_digest_id_new_body = "{ DigestId (if i . is_negative () { - i } else { i }) }".
+  gen_digest_id_new_body = "{ DigestId (i . saturating_abs ()) }".
 Proof. reflexivity. Qed.
 
 (* both callers hand their own used-set to the generator; digest_namespace starts from the items' ids *)
@@ -253,7 +270,7 @@ Proof. vm_compute. repeat split. Qed.
 Example C09_ex_hypotheses :
   request_wf ex_q /\ wf_bytes (t_salt ex_t) = true /\ stream_wf (t_decoy ex_t) /\
   match issue false ex_q ex_t (CBytes [48]) (fun _ => Some [1; 2; 3]) with
-  | Ok m => sizes_ok m /\ no_min_id m
+  | Ok m => sizes_ok m
   | _ => False
   end.
 Proof.
@@ -266,7 +283,7 @@ Proof.
   - split; [vm_compute; reflexivity|split; [exact I|]].
     let v := eval vm_compute in (issue false ex_q ex_t (CBytes [48]) (fun _ => Some [1; 2; 3])) in
     assert (E : issue false ex_q ex_t (CBytes [48]) (fun _ => Some [1; 2; 3]) = v) by (vm_compute; reflexivity).
-    rewrite E. clear E. unfold sizes_ok, no_min_id. cbn [m_mso m_namespaces mso_value_digests snd].
-    split; [split; [vm_compute; reflexivity|]|];
-      repeat (first [apply Forall_nil | apply Forall_cons]); try (vm_compute; reflexivity); cbn [fst]; discriminate.
+    rewrite E. clear E. unfold sizes_ok. cbn [m_mso m_namespaces snd].
+    split; [vm_compute; reflexivity|];
+      repeat (first [apply Forall_nil | apply Forall_cons]); vm_compute; reflexivity.
 Qed.
